@@ -1610,13 +1610,15 @@ def stream_lazy_binary(ctx: Ctx):
         n = batch[d]
         paths = rng.sample(L.KEY_POOL, rng.randint(1, 4))
         dense_s = L.gen_leaves(rng, paths, batch, "int")
-        # members, each inserted in its own order
+        # members, each inserted in its own order; half of the stacks carry dim names (members and stack dim)
+        named = rng.random() < 0.5
         mem_orders, members = [], []
         for i in range(n):
             o = list(paths); rng.shuffle(o)
             mem_orders.append(L.dfs_order(o))
-            members.append(L.build_td({p: dense_s[p].select(d, i).clone() for p in paths}, o, tuple(b for j, b in enumerate(batch) if j != d)))
-        lz = lazy_stack(members, d)
+            members.append(L.build_td({p: dense_s[p].select(d, i).clone() for p in paths}, o, tuple(b for j, b in enumerate(batch) if j != d),
+                                      names=[NAMES[j] for j in range(len(batch)) if j != d] if named else None))
+        lz = LazyStackedTensorDict(*members, stack_dim=d, stack_dim_name=NAMES[d]) if named else lazy_stack(members, d)
         okind = rng.choice(["same", "same", "otherdim", "dense", "dense", "tensor", "scalar"])
         if name in ("maximum",) and okind == "scalar":
             okind = "tensor"
@@ -1651,8 +1653,8 @@ def stream_lazy_binary(ctx: Ctx):
             other = rng.randint(1, 3)
             o_sx = ["sc"]
         case = {"op": name, "batch": list(batch), "stack_dim": d, "members": [[".".join(p) for p in mo] for mo in mem_orders],
-                "other": okind, "keys": rel, "other_keys": [".".join(p) for p in o_paths] if dense_o else None}
-        run.case(("lazy_binary", name, okind, rel, tuple(batch), d, tuple(map(tuple, mem_orders))), nontrivial=okind != "scalar")
+                "other": okind, "keys": rel, "other_keys": [".".join(p) for p in o_paths] if dense_o else None, "named": named}
+        run.case(("lazy_binary", name, okind, rel, tuple(batch), d, tuple(map(tuple, mem_orders)), named), nontrivial=okind != "scalar")
         run.count("lazy_binary.other", f"{okind}:{rel}")
         ans = parse_sx(ctx.drv.ask(sx("c09.lazy_binop", "inplace" if inplace else "out", [L.paths_sx(mo) for mo in mem_orders], o_sx, None)))
         # ---- model evaluated with torch
@@ -1714,6 +1716,8 @@ def stream_lazy_binary(ctx: Ctx):
             got = {p: res.get(p if len(p) > 1 else p[0]) for p in paths}
             if L.canon_kv(got) != L.canon_kv(want):
                 run.oracle_fail("container", case, "values differ from the per-key torch op on the stacked entries", f"lazyop:{name}:{okind}:values")
+            elif named and list(res.names) != list(lz.names):
+                run.oracle_fail("container", case, f"the result's dim names {list(res.names)} are not self's {list(lz.names)}", f"lazyop:{name}:{okind}:names")
             else:
                 run.oracle_ok("container")
 
